@@ -228,8 +228,17 @@ fn main() {
     for w in WILD {
         set.insert(w.to_string());
     }
+    // every special non-ASCII character alone and next to a digit
+    let mut extra: Vec<String> = vec![];
+    for c in mc_core::chars::SPECIALS {
+        extra.push(format!("{}", c));
+        extra.push(format!("1{}", c));
+    }
+    for e in &extra {
+        set.insert(e.clone());
+    }
     let v: Vec<String> = set.into_iter().collect();
-    let wild: Vec<bool> = v.iter().map(|s| WILD.contains(&s.as_str())).collect();
+    let wild: Vec<bool> = v.iter().map(|s| WILD.contains(&s.as_str()) || extra.contains(s)).collect();
     let n = v.len();
     run.bound(format!(
         "carrier of {} versions ({} token-built, {} out-of-model); {} real verdicts; laws over all {} pairs and {} triples",
